@@ -74,6 +74,36 @@ fn judge_at(x: &Vec<u8>, t: &Vec<u8>, st: &mut Stats) -> Verdict {
             return fail("HeaderResult::parse", imp::short(&format!("{:?}", a)));
         }
     }
+    // the verdict was final when the byte behind the first CR arrived: the input cut right there gets the very same result
+    // through every route (whatever else the input already holds - a later CRLF, more fields - came too late to matter)
+    if by_cr {
+        let p = first_cr(x).unwrap();
+        if p + 2 < x.len() {
+            let cutb = &x[..p + 2];
+            if let (Ok(a), Ok(b)) = (imp::v1_bytes(cutb), &rb) {
+                if a != *b {
+                    return Err(Fail::new("verdict-changes-after-closure:minimal-closed-prefix", shape(x), "v1::try_from(&[u8])", format!("the result for the first {} bytes: {:?}", p + 2, a), format!("{:?}", b)));
+                }
+            }
+            if let (Ok(sc), Ok(sx)) = (std::str::from_utf8(cutb), std::str::from_utf8(x)) {
+                if let (Ok(a), Ok(b)) = (imp::v1_str(sc), imp::v1_str(sx)) {
+                    if a != b {
+                        return Err(Fail::new("verdict-changes-after-closure:minimal-closed-prefix:v1::try_from(&str)", shape(x), "v1::try_from(&str)", format!("the result for the first {} bytes: {:?}", p + 2, a), format!("{:?}", b)));
+                    }
+                }
+                if let (Ok(a), Ok(b)) = (imp::v1_fromstr_addr(sc), imp::v1_fromstr_addr(sx)) {
+                    if a != b {
+                        return Err(Fail::new("verdict-changes-after-closure:minimal-closed-prefix:parse::<Addresses>", shape(x), "str::parse::<v1::Addresses>", format!("the result for the first {} bytes: {:?}", p + 2, a), format!("{:?}", b)));
+                    }
+                }
+                if let (Ok(a), Ok(b)) = (imp::v1_fromstr_header(sc), imp::v1_fromstr_header(sx)) {
+                    if a != b {
+                        return Err(Fail::new("verdict-changes-after-closure:minimal-closed-prefix:parse::<Header>", shape(x), "str::parse::<v1::Header>", format!("the result for the first {} bytes: {:?}", p + 2, a), format!("{:?}", b)));
+                    }
+                }
+            }
+        }
+    }
     // frozen window: once CR-closed, later bytes cannot change the result
     if by_cr && !t.is_empty() {
         let mut xt = x.clone();
